@@ -362,6 +362,9 @@ def shards(tier):
     for first in firsts2:
         out.append(dict(fn="h_failover", timeout=T, shard=dict(ns=2, ra=1, ignore_exc=first == 3, kind="unreachable",
                                                                depth=4 if thorough else 3, first=first, dtmax=3)))
+    for ign in (False, True):
+        out.append(dict(fn="h_failover", timeout=T, weight=3, shard=dict(ns=2, ra=1, ignore_exc=ign, kind="unreachable", depth=5,
+                                                                         first=3, dtmax=2, dmax=3, alphabet=[0, 2])))
     # socket.timeout (an OSError that is not a ConnectionError) with exceptions ignored
     for first in (3, 2):
         out.append(dict(fn="h_failover", timeout=T, shard=dict(ns=2, ra=1, ignore_exc=True, kind="timeout", depth=3,
